@@ -120,12 +120,47 @@ def run(model: RepoModel, rep, tier: str):
     else:
         rep.holds("C03.R1", key, "lang", 0, "no frontend emits a statement content with a stmt_id / parent_stmt_id key")
 
+    # ------------------------------------------------------------------ roles of add_main_func's locals (found by what they do, not by name)
+    MAXID = INDEX = TOP = REGULAR = OUT = None
+    for n in walk_no_nested(amf.node):
+        # MAXID = max(MAXID, row["stmt_id"])
+        if isinstance(n, ast.Assign) and isinstance(n.targets[0], ast.Name) and isinstance(n.value, ast.Call) and call_name(n.value) == "max" \
+                and any(isinstance(a, ast.Name) and a.id == n.targets[0].id for a in n.value.args) \
+                and any(isinstance(a, ast.Subscript) and const_str(a.slice) == "stmt_id" for a in n.value.args):
+            MAXID = n.targets[0].id
+    whiles = [n for n in walk_no_nested(amf.node) if isinstance(n, ast.While)]
+    whiles.sort(key=lambda n: n.lineno)
+    if whiles and isinstance(whiles[0].test, ast.Compare) and isinstance(whiles[0].test.left, ast.Name):
+        INDEX = whiles[0].test.left.id
+    def _iter_name(it):
+        if isinstance(it, ast.Name):
+            return it.id
+        if isinstance(it, ast.Call) and it.args and isinstance(it.args[0], ast.Name):
+            return it.args[0].id
+        return None
+    fors_after = [n for n in walk_no_nested(amf.node) if isinstance(n, ast.For) and _iter_name(n.iter) and whiles and n.lineno > whiles[0].end_lineno]
+    appended_in_while = {c.func.value.id for w in whiles[:1] for c in ast.walk(w) if isinstance(c, ast.Call) and isinstance(c.func, ast.Attribute)
+                         and c.func.attr == "append" and isinstance(c.func.value, ast.Name)}
+    for fr in fors_after:
+        if _iter_name(fr.iter) in appended_in_while:
+            TOP = _iter_name(fr.iter)
+            outs = {c.func.value.id for c in ast.walk(fr) if isinstance(c, ast.Call) and isinstance(c.func, ast.Attribute) and c.func.attr == "append"
+                    and isinstance(c.func.value, ast.Name)}
+            OUT = next(iter(outs), None)
+    REGULAR = next(iter(appended_in_while - {TOP}), None) if TOP and len(appended_in_while) == 2 else None
+    if not all((MAXID, INDEX, TOP, REGULAR, OUT)):
+        raise AnalysisError(f"add_main_func: roles not recognised (max id {MAXID}, index {INDEX}, top list {TOP}, regular list {REGULAR}, output {OUT})")
+    rep.analysed["add_main_func roles"] = {"max id": MAXID, "index": INDEX, "top-level list": TOP, "declaration list": REGULAR, "output": OUT}
+
     # ------------------------------------------------------------------ R2
     offsets = []
+    wrapper_ids: Dict[str, int] = {}
     for n in walk_no_nested(amf.node):
         if isinstance(n, ast.Assign) and isinstance(n.value, ast.BinOp) and isinstance(n.value.op, ast.Add) \
-                and isinstance(n.value.left, ast.Name) and n.value.left.id == "last_stmt_id" and isinstance(n.value.right, ast.Constant):
+                and isinstance(n.value.left, ast.Name) and n.value.left.id == MAXID and isinstance(n.value.right, ast.Constant):
             offsets.append(n.value.right.value)
+            if isinstance(n.targets[0], ast.Name):
+                wrapper_ids[n.targets[0].id] = n.value.right.value
     gap = literal(model.module("config/config.py").assigns.get("MIN_ID_INTERVAL"))
     key = f"{BASIC}::add_main_func::ids above the unit maximum fit into the inter-unit gap"
     adj = lang.methods.get("adjust_node_id")
@@ -143,9 +178,9 @@ def run(model: RepoModel, rep, tier: str):
     key = f"{BASIC}::add_main_func::last_stmt_id is the maximum over all rows"
     cfg = cfg_of(amf.node)
     maxes = {n for n in cfg.g.nodes if cfg.kind[n] == "stmt" and isinstance(cfg.stmt[n], ast.Assign) and isinstance(cfg.stmt[n].targets[0], ast.Name)
-             and cfg.stmt[n].targets[0].id == "last_stmt_id" and isinstance(cfg.stmt[n].value, ast.Call) and call_name(cfg.stmt[n].value) == "max"}
+             and cfg.stmt[n].targets[0].id == MAXID and isinstance(cfg.stmt[n].value, ast.Call) and call_name(cfg.stmt[n].value) == "max"}
     idx_incs = [n for n in cfg.g.nodes if cfg.kind[n] == "stmt" and isinstance(cfg.stmt[n], ast.AugAssign) and isinstance(cfg.stmt[n].target, ast.Name)
-                and cfg.stmt[n].target.id == "index"]
+                and cfg.stmt[n].target.id == INDEX]
     bad = [n for n in idx_incs if not any(cfg.dominates(m_, n) and _same_iteration(cfg, m_, n) for m_ in maxes)]
     if maxes and not bad:
         rep.holds("C03.R2", key, BASIC, amf.node.lineno, f"each of the {len(idx_incs)} index advances is preceded by last_stmt_id = max(last_stmt_id, row id) in the same iteration")
@@ -234,12 +269,12 @@ def run(model: RepoModel, rep, tier: str):
     if not outer:
         raise AnalysisError("add_main_func: partition loop not found")
     oh = outer[0]
-    lists = [v for v in ("top_stmts", "regular_stmts")]
+    lists = [TOP, REGULAR]
     app = {l: {n for n in cfg.g.nodes for c in cfg.calls_at(n) if isinstance(c.func, ast.Attribute) and c.func.attr == "append"
                and isinstance(c.func.value, ast.Name) and c.func.value.id == l} for l in lists}
-    all_app = app["top_stmts"] | app["regular_stmts"]
+    all_app = app[TOP] | app[REGULAR]
     incs = {n for n in cfg.g.nodes if cfg.kind[n] == "stmt" and isinstance(cfg.stmt[n], ast.AugAssign) and isinstance(cfg.stmt[n].target, ast.Name)
-            and cfg.stmt[n].target.id == "index" and is_const(cfg.stmt[n].value, 1)}
+            and cfg.stmt[n].target.id == INDEX and is_const(cfg.stmt[n].value, 1)}
     key = f"{BASIC}::add_main_func::every row goes to exactly one list and the index advances"
     probs = []
     # every index advance is immediately preceded by an append in the same straight-line block (row kept), and vice versa
@@ -262,16 +297,20 @@ def run(model: RepoModel, rep, tier: str):
                                             f"{len(all_app)} appends, {len(incs)} index advances, paired one to one on every path")
     # the output is regular_stmts followed by wrapper + top_stmts in order
     key = f"{BASIC}::add_main_func::output = declarations, then the wrapper around the top-level code in source order"
-    out_src = [n for n in walk_no_nested(amf.node) if isinstance(n, ast.Assign) and isinstance(n.targets[0], ast.Name) and n.targets[0].id == "out_data"]
-    loop_top = [n for n in walk_no_nested(amf.node) if isinstance(n, ast.For) and isinstance(n.iter, ast.Name) and n.iter.id == "top_stmts"]
-    ok = out_src and isinstance(out_src[-1].value, ast.Name) and out_src[-1].value.id == "regular_stmts" and loop_top and any(
-        isinstance(x, ast.Call) and isinstance(x.func, ast.Attribute) and x.func.attr == "append" and norm(x.func.value) == "out_data" for x in ast.walk(loop_top[0]))
+    out_src = [n for n in walk_no_nested(amf.node) if isinstance(n, ast.Assign) and isinstance(n.targets[0], ast.Name) and n.targets[0].id == OUT]
+    loop_top = [n for n in walk_no_nested(amf.node) if isinstance(n, ast.For) and isinstance(n.iter, ast.Name) and n.iter.id == TOP]
+    ok = out_src and isinstance(out_src[-1].value, ast.Name) and out_src[-1].value.id == REGULAR and loop_top and any(
+        isinstance(x, ast.Call) and isinstance(x.func, ast.Attribute) and x.func.attr == "append" and isinstance(x.func.value, ast.Name)
+        and x.func.value.id == OUT for x in ast.walk(loop_top[0]))
     (rep.holds if ok else rep.violation)("C03.R4", key, BASIC, amf.node.lineno,
                                          "out_data = regular_stmts; ...; for stmt in top_stmts: out_data.append(stmt)" if ok else
                                          "the gathered top-level statements are not emitted in their original order after the declarations")
     key = f"{BASIC}::add_main_func::top-level rows are re-parented under the wrapper's block"
+    # the wrapper's block id: the wrapper id used as stmt_id of the emitted block_start row
+    body_ids = {v.id for n in walk_no_nested(amf.node) if isinstance(n, ast.Dict) and _dict_with(n, operation="block_start")
+                for k, v in zip(n.keys, n.values) if k is not None and const_str(k) == "stmt_id" and isinstance(v, ast.Name) and v.id in wrapper_ids}
     rp = loop_top and any(isinstance(x, ast.Assign) and isinstance(x.targets[0], ast.Subscript) and const_str(x.targets[0].slice) == "parent_stmt_id"
-                          and isinstance(x.value, ast.Name) and "body" in x.value.id for x in ast.walk(loop_top[0]))
+                          and isinstance(x.value, ast.Name) and x.value.id in body_ids for x in ast.walk(loop_top[0]))
     (rep.holds if rp else rep.violation)("C03.R4", key, BASIC, amf.node.lineno,
                                          "parent 0 -> main_method_body_id" if rp else "top-level statements keep parent 0 inside the wrapper: they lie in no method block")
 
@@ -280,13 +319,20 @@ def run(model: RepoModel, rep, tier: str):
     if fs is None:
         raise AnalysisError("flatten_stmt vanished")
     n_ok, bad = 0, None
+    # the row being built: the dict handed to init_stmt_id (which numbers it)
+    node_vars = {c.args[0].id for c in walk_no_nested(fs.node) if isinstance(c, ast.Call) and is_self_attr(c.func, "init_stmt_id") and c.args
+                 and isinstance(c.args[0], ast.Name)}
+    if not node_vars:
+        raise AnalysisError("flatten_stmt: the row handed to init_stmt_id was not found")
     for n in walk_no_nested(fs.node):
         if isinstance(n, ast.Assign) and isinstance(n.value, ast.Call) and is_self_attr(n.value.func, "flatten_block"):
             parent_arg = n.value.args[1] if len(n.value.args) > 1 else None
-            if parent_arg is not None and "stmt_id" in norm(parent_arg) and "flattened_node" in norm(parent_arg):
+            if isinstance(parent_arg, ast.Subscript) and const_str(parent_arg.slice) == "stmt_id" and isinstance(parent_arg.value, ast.Name) \
+                    and parent_arg.value.id in node_vars:
                 # the id is stored under the attribute's own key
                 tvar = n.targets[0].id if isinstance(n.targets[0], ast.Name) else None
-                stored = any(isinstance(x, ast.Assign) and isinstance(x.targets[0], ast.Subscript) and norm(x.targets[0].value) == "flattened_node"
+                stored = any(isinstance(x, ast.Assign) and isinstance(x.targets[0], ast.Subscript) and isinstance(x.targets[0].value, ast.Name)
+                             and x.targets[0].value.id in node_vars
                              and isinstance(x.value, ast.Name) and x.value.id == tvar for x in walk_no_nested(fs.node))
                 if stored:
                     n_ok += 1
@@ -303,7 +349,9 @@ def run(model: RepoModel, rep, tier: str):
         rep.unknown("C03.R5", key, LA, fs.node.lineno, "no flatten_block call in flatten_stmt")
     fb = gp.methods["flatten_block"]
     key = f"{LA}::GIRProcessing.flatten_block::children are parented by the block"
-    ok = any(isinstance(n, ast.Call) and is_self_attr(n.func, "flatten_stmt") and n.args and isinstance(n.args[-1], ast.Name) and n.args[-1].id == "block_id"
+    # the block's id: what flatten_block returns
+    ret_ids = {n.value.id for n in walk_no_nested(fb.node) if isinstance(n, ast.Return) and isinstance(n.value, ast.Name)}
+    ok = any(isinstance(n, ast.Call) and is_self_attr(n.func, "flatten_stmt") and n.args and isinstance(n.args[-1], ast.Name) and n.args[-1].id in ret_ids
              for n in walk_no_nested(fb.node))
     (rep.holds if ok else rep.violation)("C03.R5", key, LA, fb.node.lineno,
                                          "flatten_stmt(child, ..., block_id)" if ok else "children of a block are not flattened with the block's id as parent")
